@@ -60,6 +60,10 @@ def plan(tier: str, seed: int) -> Plan:
         Condition("typing-args", "typing", H, "typing_args", {}, T * 2,
                   bounds="11 argument kinds x every parameter position of 7 call templates over the five standard functions; enumeration"),
     ]
+    for f in range(7):
+        conds.append(Condition(f"typing-history:{f}", "typing", H, "typing_history", {"flo": f, "fhi": f}, T * 2, required=False,
+                               bounds="one call template: a first compilation with one of 5 argument kinds, then every argument kind at every "
+                                      "parameter position, on one fresh environment (state carried between compilations)"))
     obls = [det(t, False) for t in MUST_REJECT] + [det(t, True) for t in MUST_ACCEPT]
     from props import lane_r
 
